@@ -130,3 +130,16 @@ def run(ck):
                       "how": "the bindings / interface the back end emitted differ from what the WGSL attributes and the supplied "
                              "binding map prescribe"}, found_input=True)
     ck.extra["results_per_backend"] = tally
+    # reflection vs emitted text (no model needed: the two are outputs of the same call and must describe each other)
+    rp = os.path.join(out, "reflect.txt")
+    seen_r = set()
+    for l in (common.read_lines(rp) if os.path.exists(rp) else []):
+        parts = re.findall(r'"((?:[^"\\]|\\.)*)"', l)
+        if len(parts) < 4 or parts[0] in seen_r:
+            continue
+        seen_r.add(parts[0])
+        ck.violation({"kind": "reflection-does-not-describe-the-text", "what": unq(parts[0]), "reflection": unq(parts[1]), "text": unq(parts[2]),
+                      "wgsl": unq(parts[3]),
+                      "how": "the reflection data returned by the back end and the interface blocks of the text it returned disagree "
+                             "(block name, uniform/storage kind or the (group, binding) of the global)"}, found_input=True)
+    ck.extra["glsl_reflection"] = {k: v for k, v in ck.stats.get("c17", {}).items() if k.startswith("glsl-reflection")}
